@@ -414,3 +414,39 @@ theorem constructGeneric_valid {opts : List OptInst} (c : Config) (hv : AllValid
   rfl
 
 end Scrapli.Options
+
+namespace Scrapli.Options
+open Scrapli Scrapli.Gen.Options
+
+/-- `generic.NewDriver` with no failing option, field by field: every setting of every object that
+is built is what the options naming it leave there, in list order, starting from the default; all
+other settings keep their default. The logger additionally defaults to a no-op instance. -/
+theorem constructGeneric_field {opts : List OptInst} (c : Config) (hv : AllValid opts) :
+    ∃ c', constructGeneric opts c = .ok c' ∧
+      (∀ f, f ≠ .generic_Driver_Logger →
+        c' f = if f.target ∈ genericReached opts c then fieldAfter f.target opts f (c f) else c f) ∧
+      c' .generic_Driver_Logger =
+        fillLogger .generic_Driver_Logger (afterPass .generic_Driver opts c) .generic_Driver_Logger := by
+  refine ⟨_, constructGeneric_valid c hv, ?_, ?_⟩
+  · intro f hf
+    have hnd := genericReached_nodup opts c
+    have e1 := afterPasses_congr ([.transport_Args] ++
+          transportTargets (afterPass .transport_Args opts
+            (fillLogger .generic_Driver_Logger (afterPass .generic_Driver opts c))) ++ [.channel_Channel]) opts
+        (fillLogger_other (L := .generic_Driver_Logger) (afterPass .generic_Driver opts c) hf)
+    rw [e1, ← afterPasses_cons]
+    exact afterPasses_field hnd opts c f
+  · have hnd := genericReached_nodup opts c
+    unfold genericReached at hnd
+    have hnd' : ¬ Target.generic_Driver ∈ ([Target.transport_Args] ++
+          transportTargets (afterPass .transport_Args opts
+            (fillLogger .generic_Driver_Logger (afterPass .generic_Driver opts c))) ++ [Target.channel_Channel]) ∧
+        ([Target.transport_Args] ++
+          transportTargets (afterPass .transport_Args opts
+            (fillLogger .generic_Driver_Logger (afterPass .generic_Driver opts c))) ++ [Target.channel_Channel]).Nodup :=
+      List.nodup_cons.1 hnd
+    rw [afterPasses_field hnd'.2]
+    have : Field.generic_Driver_Logger.target = Target.generic_Driver := rfl
+    rw [this, if_neg hnd'.1]
+
+end Scrapli.Options
